@@ -54,6 +54,7 @@ type run struct {
 	clock        uint64
 	initialised  bool
 	kernelFailed string
+	ro           map[string]bool // directions whose manager handle is write-protected (`wfault`)
 }
 
 var shared *hx.CRunner
@@ -128,6 +129,7 @@ func (r *run) init() string {
 	}
 	mgr.SetMapsForVerif(r.egress, r.ingress, r.stats)
 	r.mgr = mgr
+	r.ro = nil
 	r.c.Do("trace on")
 	r.initialised = true
 	return "ok"
@@ -205,10 +207,7 @@ func kv(tok string) (string, string) {
 	return tok, ""
 }
 
-func errText(err error) string {
-	s := strings.ReplaceAll(err.Error(), "\n", " ")
-	return strings.ReplaceAll(s, " ", "_")
-}
+func errText(err error) string { return errHead(err) }
 
 // keyOf extracts the first lookup of the subscriber map from a runner observation and strips the trace
 func digestRun(obs, d string) string {
@@ -372,6 +371,31 @@ func (r *run) Do(op string) string {
 			return "badop"
 		}
 		return strconv.Itoa(r.mgr.GetSubscriberCount())
+	case "race":
+		// race <sched> <call> / <call>
+		if len(t) < 5 || len(t[1]) > 12 || strings.Trim(t[1], "AB") != "" || r.ro["e"] || r.ro["i"] {
+			return "badop"
+		}
+		sep := -1
+		for i, x := range t {
+			if x == "/" {
+				sep = i
+			}
+		}
+		if sep < 3 {
+			return "badop"
+		}
+		a, ok1 := parseCall(t[2:sep])
+		b, ok2 := parseCall(t[sep+1:])
+		if !ok1 || !ok2 {
+			return "badop"
+		}
+		return r.race(t[1], a, b)
+	case "wfault":
+		if len(t) != 3 || (t[1] != "e" && t[1] != "i") || (t[2] != "on" && t[2] != "off") {
+			return "badop"
+		}
+		return r.setWriteProtect(t[1], t[2] == "on")
 	case "raw":
 		if len(t) != 4 || (t[1] != "e" && t[1] != "i") {
 			return "badop"
@@ -1011,7 +1035,57 @@ func genControl(r *rand.Rand) []string {
 	return seq
 }
 
+// two control-plane calls at once, interleaved write by write (every schedule of the 3+3 writes for Set/Remove and
+// Remove/Set on one address, a sample for Set/Set, Remove/Remove and two addresses), with packets and counts afterwards;
+// and calls under a write-protected map handle
+func genRace(r *rand.Rand, emit func([]string)) {
+	var scheds []string
+	var rec func(p string, a, b int)
+	rec = func(p string, a, b int) {
+		if a == 0 && b == 0 {
+			scheds = append(scheds, p)
+			return
+		}
+		if a > 0 {
+			rec(p+"A", a-1, b)
+		}
+		if b > 0 {
+			rec(p+"B", a, b-1)
+		}
+	}
+	rec("", 3, 3)
+	ip := ips[0]
+	a := hex.EncodeToString(ip[:])
+	set1 := "setqos a=" + a + " down=2000000 up=700000 burst=4000 prio=2"
+	set2 := "setqos a=" + a + " down=64000 up=64000 burst=0 prio=7"
+	rm := "rmqos a=" + a
+	other := hex.EncodeToString(ips[1][:])
+	probe := []string{"count", "clock 1000", "pkt e " + subFrame("e", ip, r) + " 100", "pkt i " + subFrame("i", ip, r) + " 100", rm, "count"}
+	for _, pre := range [][]string{nil, {set2}} {
+		for _, s := range scheds {
+			for _, pair := range [][2]string{{set1, rm}, {rm, set1}} {
+				seq := append([]string{"new"}, pre...)
+				seq = append(seq, "race "+s+" "+pair[0]+" / "+pair[1])
+				emit(append(seq, probe...))
+			}
+		}
+	}
+	for i, s := range scheds {
+		pairs := [][2]string{{set1, set2}, {rm, rm}, {set1, "setqos a=" + other + " down=1000 up=1000 burst=2 prio=0"}, {set1, "rmqos a=" + other}}
+		seq := []string{"new", "setqos a=" + other + " down=5000 up=5000 burst=0 prio=1"}
+		seq = append(seq, "race "+s+" "+pairs[i%4][0]+" / "+pairs[i%4][1], "race "+hx.Pick(r, scheds)[:r.Intn(6)]+" "+pairs[(i+1)%4][1]+" / "+pairs[(i+1)%4][0])
+		emit(append(seq, probe...))
+	}
+	for _, d := range []string{"e", "i"} {
+		emit([]string{"new", set1, "wfault " + d + " on", rm, "count", "race AB " + set1 + " / " + rm, "wfault " + d + " off",
+			"clock 1000", "pkt e " + subFrame("e", ip, r) + " 100", "pkt i " + subFrame("i", ip, r) + " 100", set2, rm, "count"})
+		emit([]string{"new", "wfault " + d + " on", set1, "count", "defpolicy gold 1000000 1000000 0 3", "setpolicy a=" + other + " gold",
+			"wfault " + d + " off", "count", "clock 1000", "pkt e " + subFrame("e", ip, r) + " 100", set1, "rmqos a=" + other, rm, "count"})
+	}
+}
+
 func (comp) Gen(r *rand.Rand, tier string, emit func([]string)) {
+	genRace(r, emit)
 	nMgr, nRaw, nBack, nLong := 150, 240, 110, 15
 	nCtl := 120
 	if tier == "thorough" {
